@@ -81,6 +81,7 @@ REQUIRED = {
 	"boundscheck_active": 1, "boundscheck_cases": 200,
 	"rc_strings": 2000, "rc_tensors": 500, "rc_maps_enumerated": 40,
 	"rc_histories": 50, "rc_history_prior_raises": 30,
+	"characters_layout_calls": 500, "nonplain_layout_cases": 200,
 	"unchunk_k1_overlap": 50, "unchunk_k2": 50, "unchunk_k3": 50,
 	"unchunk_many": 50, "unchunk_odd_overlap": 50, "unchunk_3lead": 50,
 	"unchunk_multi_seq": 50,
@@ -159,6 +160,9 @@ def _wit(alphabet, ignore, dtname, s, **more):
 	return d
 
 
+SEEN = {}        # counters of monitors that have no Recorder at hand
+
+
 def ohe_check(utils, alphabet, ignore, dtname, s, boundscheck=False,
 	defaults=False, fast=False, obs=None):
 	"""Runs one_hot_encode and characters on one legal string.
@@ -223,6 +227,20 @@ def ohe_check(utils, alphabet, ignore, dtname, s, boundscheck=False,
 	calls = [("allow_N=True", dict(ckw, allow_N=True), want)]
 	if not has_ign:
 		calls.append(("default", dict(ckw), s))
+	lay = gen.layout_of((s, dtname, alphabet))
+	if lay != "plain" and s and base in ("int8", "float32", "float64",
+		"int64", "uint8", "int32", "int16"):
+		# the same encoding as a view into a larger storage
+		st, c = gen.call(utils.characters, gen.relayout(x, lay)[0],
+			**dict(ckw, allow_N=True))
+		SEEN["characters_layout_calls"] = SEEN.get("characters_layout_calls",
+			0) + 1
+		if st == "raise" or c != want:
+			return ("violation", "C15/characters-memory-layout", _wit(alphabet,
+				ignore, dtname, s, what="characters() of the same encoding "
+				"held in another memory layout (%s) %s" % (lay, "raised"
+				if st == "raise" else "differs"), got=repr(c)[:300],
+				expected=repr(want)[:300]))
 	for label, k, w in calls:
 		st, c = gen.call(utils.characters, x, **k)
 		if st == "raise":
@@ -706,7 +724,8 @@ def rc_check(utils, mapname, s, dtname, composed=False, pairs=None,
 	if st == "raise" or back != s:
 		return ("C15/revcomp-not-involution", dict(w, what="rc(rc(s)) != s "
 			"(string form)", got=repr(back)[:300]))
-	x = own_encode(s, keys, dtname)
+	x = gen.relayout(own_encode(s, keys, dtname), gen.layout_of((s, dtname,
+		keys)))[0]
 	st, y = gen.call(utils.reverse_complement, x, **kw)
 	if st == "raise":
 		return ("C15/revcomp-raised", dict(w, what="tensor form raised",
@@ -835,6 +854,7 @@ def case_rct(cls, params, rec):
 	if params["vseed"]:
 		base = r.permutation(A * L).reshape(A, L) + 1
 	x = torch.from_numpy(base).type(getattr(torch, params["dtype"]))
+	x = gen.relayout(x, gen.layout_of(params))[0]
 	kw = {} if params["map"] == "dna" else {"complement_map": cmap}
 	st, y = gen.call(utils.reverse_complement, x, **kw)
 	w = {"complement_map": pairs, "L": L, "dtype": params["dtype"],
@@ -1100,6 +1120,10 @@ def chunk_call(cls, params, rec):
 	covs = [size + (k - 1) * step if k else 0 for k in ks]
 	dt = getattr(torch, dtname)
 	xs = [torch.from_numpy(a).type(dt) for a in arrays]
+	# same values in other memory layouts (views into larger storages)
+	lay = gen.layout_of(params)
+	xs = [gen.relayout(x, lay)[0] for x in xs]
+	rec.setadd("layouts", lay)
 	own = [own_chunks(a, size, step) for a in arrays]
 	E = numpy.concatenate(own, axis=0)
 	starts = numpy.concatenate([[0], numpy.cumsum(ks)]).tolist()
@@ -1157,6 +1181,11 @@ def chunk_call(cls, params, rec):
 	if not remaining:
 		finish()
 		return
+	Ylay = gen.layout_of(params, "chunks")
+	rec.setadd("layouts_unchunk_input", Ylay)
+	if Ylay != "plain":
+		rec.count("nonplain_layout_cases")
+	Yin = gen.relayout(Yin, Ylay)[0]
 	Xarg = Yin.numpy() if xform == "numpy" else Yin
 	if lform == "none":
 		kw = {"overlap": overlap}
@@ -1530,3 +1559,5 @@ def run_unit(unit, rec):
 		run_chunk_misc(unit, rec)
 	else:
 		raise ValueError("unknown unit class %r" % (c,))
+	for k in list(SEEN):
+		rec.count(k, SEEN.pop(k))
